@@ -268,6 +268,25 @@ fn main() {
                 }
             }
         }
+        Some("cursors") => {
+            // vh cursors <cfg-json> <comma-separated offsets>  (text on stdin): the relocated cursors of the core, one line `CURSOR=..`
+            let cfg = cfg_from_json(&serde_json::from_str(args.get(2).map(|s| s.as_str()).unwrap_or("{}")).expect("cfg"));
+            let cur: Vec<u32> = args.get(3).map(|s| s.split(',').filter(|x| !x.is_empty()).map(|x| x.parse().unwrap()).collect()).unwrap_or_default();
+            let mut text = String::new();
+            std::io::Read::read_to_string(&mut std::io::stdin(), &mut text).unwrap();
+            obs::install_panic_hook();
+            let r = obs::run(&text, &cfg, &cur, false);
+            match r.out {
+                Ok(o) => {
+                    println!("CURSOR={}", r.cursors_out.iter().map(|c| c.to_string()).collect::<Vec<_>>().join(","));
+                    println!("LEN={}", o.len());
+                }
+                Err(p) => {
+                    eprintln!("PANIC {p}");
+                    std::process::exit(101)
+                }
+            }
+        }
         Some("fmt") => {
             // vh fmt <cfg-json>   (stdin -> stdout), for replaying a single case
             let cfg = cfg_from_json(&serde_json::from_str(args.get(2).map(|s| s.as_str()).unwrap_or("{}")).expect("cfg"));
